@@ -122,7 +122,11 @@ func (r Promise[T]) dispatchOrAddCallback(cb onCompleteFunc[T]) {
 		return
 
 	case []onCompleteFunc[T]:
-		if r.status.CompareAndSwap(ap, append(status, cb)) {
+		// the published slice is shared with concurrent registrations: never append in place
+		listeners := make([]onCompleteFunc[T], len(status)+1)
+		copy(listeners, status)
+		listeners[len(status)] = cb
+		if r.status.CompareAndSwap(ap, listeners) {
 			return
 		}
 		r.dispatchOrAddCallback(cb)
